@@ -187,12 +187,14 @@ def strat_solve(tier):
     nmax = 10 if tier == "quick" else 20
     ex, im = cases.integrator_names()
     md = st.one_of(gen.model_convection(), gen.model_burgers(), gen.model_shallowwater(), gen.model_euler1d())
+    # what the SAME solver object did before the judged computation: nothing, or one solve with the other time-step directive and another CFL number
+    prior = st.sampled_from(["none", "none", "other-directive"])
     one = md.flatmap(lambda m: st.builds(
-        lambda me, s, cfl, integ, dtl, nit: dict(model=m, mesh=me, state=s, cfl=cfl, integ=integ, dtlocal=dtl, nit=nit),
+        lambda me, s, cfl, integ, dtl, nit, prior: dict(model=m, mesh=me, state=s, cfl=cfl, integ=integ, dtlocal=dtl, nit=nit, prior=prior),
         gen.mesh_any(2, nmax), gen.state_for(m, True, lnrange=1.0, machmax=1.5) if m["name"] in ("euler1d", "shallowwater") else gen.state_scalar(True, 0.2, 2.0),
-        gen.f(0.05, 0.5), st.sampled_from(ex + im), st.booleans(), st.integers(1, 4)))
-    two = st.builds(lambda me, s, cfl, integ, dtl, nit: dict(model=dict(name="euler2d", gamma=1.4), mesh2d=me, state=s, cfl=cfl, integ=integ, dtlocal=dtl, nit=nit),
-                    gen.mesh2d(2, 4), gen.state_euler2d(True, lnrange=0.5, machmax=1.2), gen.f(0.05, 0.4), st.sampled_from(ex), st.booleans(), st.integers(1, 3))
+        gen.f(0.05, 0.5), st.sampled_from(ex + im), st.booleans(), st.integers(1, 4), prior))
+    two = st.builds(lambda me, s, cfl, integ, dtl, nit, prior: dict(model=dict(name="euler2d", gamma=1.4), mesh2d=me, state=s, cfl=cfl, integ=integ, dtlocal=dtl, nit=nit, prior=prior),
+                    gen.mesh2d(2, 4), gen.state_euler2d(True, lnrange=0.5, machmax=1.2), gen.f(0.05, 0.4), st.sampled_from(ex), st.booleans(), st.integers(1, 3), prior)
     return st.one_of(one, one, two)
 
 
@@ -214,6 +216,13 @@ def check_solve(case):
         raise Skip("burgers data identically zero (dt = inf)")
     f0 = cases.build_field(model, mesh, cases.cons_from_prim(md, prim))
     directives = {"dtlocal": True} if case["dtlocal"] else {}
+    if case.get("prior") == "other-directive" and not (case["integ"] == "gear" and not case["dtlocal"]):
+        other = {} if case["dtlocal"] else {"dtlocal": True}
+        try:
+            solver.solve(f0.copy(), 0.5 * case["cfl"], stop={"maxit": 1}, directives=other)
+        except np.linalg.LinAlgError:
+            raise Skip("preliminary computation on the same solver fails (infinite local time step)")
+        del log[:]
     res = solver.solve(f0, case["cfl"], stop={"maxit": case["nit"]}, directives=directives)
     require(len(log) == case["nit"], "solve-step-count", "%d step calls for maxit=%d without save times" % (len(log), case["nit"]))
     t = f0.time
@@ -253,7 +262,7 @@ def check_solve(case):
                 else:
                     require(dtk.ndim == 0 and abs(float(dtk) - float(np.min(ref))) <= 1e-11 * float(np.min(ref)), "restart-dt-global",
                             "restart with CFL %g after a solve with CFL %g on the same solver: step %d receives dt=%r, expected %r" % (cfl2, case["cfl"], k, dtk.tolist(), float(np.min(ref))))
-    return dict(nontrivial=True, labels=["integ:" + case["integ"], "dtlocal" if case["dtlocal"] else "dtglobal", "model:" + md["name"]])
+    return dict(nontrivial=True, labels=["integ:" + case["integ"], "dtlocal" if case["dtlocal"] else "dtglobal", "model:" + md["name"], "prior:" + case.get("prior", "none")])
 
 
 SUBCHECKS = [
